@@ -65,7 +65,8 @@ CHECKS = {
                 design="4/C10",
                 text="MC: a delivery is produced exactly when its last frame arrives and equals the concatenation; abort produces nothing; a contradiction puts the link in error. "
                      "Conformance: C10_Exact (message identity, full byte equality of the re-encoded message, slices contiguous and complete), C10_NotBefore, C10_Abort, "
-                     "C10_Contradiction, C11_Routing on every recv result.",
+                     "C10_Contradiction, C11_Routing on every recv result. Second stage: the resource-side transaction scripts (TxnGen.tla: posts of one frame, of two frames with bare or with repeated continuation fields, "
+                     "aborted, interleaved over two links, followed by plain deliveries) through a transactional listener session, judged by TxnTrace.tla for whole and ordered delivery (C18_CommitDelivers, C18_Order, C18_SpuriousRefusal, C18_Isolation).",
                 note="trusted: message identification by message-id + full re-encoding comparison in the harness"),
     "C01": dict(technique="TLC model check of the delivery pipeline between Sender::send and Receiver::recv as six interleaved processes over bounded FIFOs with window and credit (E2E.tla: prefix safety, liveness under weak fairness, negative control for the buffered-before-current rule); TLC-generated covering configurations (E2EGen.tla) executed by a real client and a real listener talking through a byte tap that re-chunks both directions; recorded submit / recv / outcome order validated in TLC (E2ETrace.tla)",
                 design="4/C01",
@@ -93,7 +94,8 @@ CHECKS = {
                 design="4/C13",
                 text="MC: one end at most and nothing after it, detaches never outnumber attaches, attach only when detached, peer end ~> end. Conformance: C13_EndAtMostOnce, "
                      "C13_NothingAfterEnd, C13_NothingAfterDetach, C13_DetachAtMostOncePerAttach, C13_DetachInKind per frame; C13_EndReply_Q, C13_DetachReply_Q at quiescence; "
-                     "C13_TeardownWaits, C13_PeerError on teardown / data-path results; C13_Flush when a detach / end overtakes queued sends.",
+                     "C13_TeardownWaits, C13_PeerError on teardown / data-path results; C13_Flush when a detach / end overtakes queued sends; C13_ClosingInKind_Q (a non-closing detach met by the peer's closing one: re-attach, then a closing detach). "
+                     "Scripts include a handle dropped and another link attached in the same scheduler turn (DropReatt1).",
                 note="client side only so far; listener-side lifecycles are exercised through the C12 and RecvGen scripts"),
     "C12": dict(technique="TLC model check of the 2.4.6 connection state machine (ConnLife.tla, safety + leads-to under fairness); TLC-enumerated event scripts (ConnGen.tla) executed lock-step against the real client and listener; recorded traces validated by the TLA+ observer (Endpoint.tla / EndpointTrace.tla)",
                 design="4/C12",
@@ -107,14 +109,15 @@ CHECKS = {
                 text="MC: with 'reason, then close' every waiter that observes the closure finds the reason and every channel-blocked operation returns; TLC refutes 'close, then reason' and "
                      "shows that a wait on a one-shot the application keeps alive never returns (the open finding). Conformance: 382 scripts; C14_Completes (no call pending on a stopped "
                      "scope after 1 h of virtual time), C14_DataPathErr, C14_Level (error names connection vs session), C14_PeerCondition, C14_ConnHandle, C14_TasksEnd (alive tasks = "
-                     "pending calls after all handles are dropped).",
+                     "pending calls after all handles are dropped). Faults include the refusal of a pending sender attach (attach without target + closing detach with an error).",
                 note="cut points are frame / step boundaries plus one partial frame, not every byte offset; error scopes are recognised from the error's Debug rendering"),
     "C15": dict(technique="TLC-enumerated catalogue x state x side scripts (HostileGen.tla) executed lock-step under panic / spin / CPU / allocation monitors; traces validated by the TLA+ observer, whose legality classification of peer frames decides what must be answered by a shutdown",
                 design="4/C15",
                 text="35 hostile events (malformed frame headers and bodies, protocol violations) x 6 endpoint states x client / listener, plus 5 floods of 400 - 4 800 legal frames against single-slot internal channels (each three times) = 482 scripts, each followed by a probe. Clauses: "
                      "C15_NoPanic (panic hook count, per quiescence point), C15_Quiesces (a settle that never returns = spin, watchdog), C15_Cpu (<= 2 s thread CPU per step), C15_Alloc "
                      "(<= 64 MiB peak growth per step), C15_IllegalHandled (a frame the observer classifies as illegal is answered by a close / end / detach carrying an error or by "
-                     "tearing the transport down), C15_NoHang (no probe call is left pending at the end).",
+                     "tearing the transport down), C15_NoHang (no probe call is left pending at the end). Further state `resuming`: a sender with an unsettled delivery is being resumed and the peer's attach carries a hostile unsettled map "
+                     "(positions beyond the message, unknown tags, 300 of them, states no receiver can be in, the incomplete flag); begins on channels above the agreed channel-max.",
                 note="model check: the connection state machine (ConnLife.tla) shows that closing on an illegal frame is compatible with C12; 'other connections unaffected' is not exercised yet"),
     "C16": dict(technique="TLC model check of recv / send as program-counter machines with a Cancel action at every await (Cancel.tla, incl. the refuted buffer-in-future variant); TLC-enumerated cancellation scripts (CancelGen.tla) executed lock-step with capacity-1 channels and a tiny transport pipe so that sends suspend at internal awaits; traces validated by the TLA+ observer; plus long mixed histories sampled by TLC's simulation mode from a state-aware generator (MixGen.tla), executed and validated the same way",
                 design="4/C16",
@@ -131,7 +134,7 @@ CHECKS = {
                      "(thorough 4) over 15 (18) events with 0-2 transactions declared beforehand: C18_Isolation / C18_Atomic / C18_Refused / C18_Order on every recv result, "
                      "C18_CommitDelivers at the end, C18_DischargeReply and C18_FreshId on every control-link reply, C18_RefusalSignalled for posts under unknown or finished ids, "
                      "C18_LatePost for the back-to-back schedule. Controller side: depth 4 (6) over declare / post / commit / rollback / drop with accepting and rejecting coordinator: "
-                     "C18_PostCarriesId, C18_DischargeWire (id and fail flag), C18_OutcomeReported.",
+                     "C18_PostCarriesId, C18_DischargeWire (id and fail flag), C18_OutcomeReported. Posts of two frames come with bare and with repeated continuation fields (PostBigS0) and interleaved over two links of one transaction (Interleave0).",
                 note="retirement is exercised for one delivery the resource sends (C18_RetireIsolated: its send resolves only once the transaction has committed; C18_RetireApplied); transactional acquisition is not exercised; the receiving application is one recv loop per link"),
     "C19": dict(technique="TLC model check of the SASL negotiation machines of both roles against a Dolev-Yao adversary with symbolic SCRAM terms (Sasl.tla: no authentication without the password, authentication needs a password-derived term, a non-OK outcome never authenticates; negative reachability controls); the same adversary's frame sequences enumerated by TLC as scripts (SaslGen.tla), turned into real bytes by an independent RFC 5802 implementation in the harness and played against the real ConnectionAcceptor / Connection::open; traces validated in TLC against the ideal machines (SaslTrace.tla)",
                 design="4/C19",
